@@ -224,6 +224,24 @@ class Scheduler:
 
     decode = staticmethod(lambda b: b)
 
+    def clock_op(self, remaining=1000.0):
+        """yield point for `deadline - monotonic()`: the scheduler decides whether the deadline has
+        passed (go=False: the remaining time is negative) or time is left (go=True)"""
+        t = self.running
+        if t is None:
+            raise RuntimeError('clock reading outside a logical thread')
+        if self.killing:
+            raise Killed()
+        t.pending = (None, 'clock', None, False)
+        self.back.release()
+        t.resume.acquire()
+        if self.killing:
+            raise Killed()
+        t.pending = None
+        expired = 0 if t.go else 1
+        self.log(t.idx, 101, 6, expired, t)
+        return -1.0 if expired else remaining
+
     def sem_op(self, sem, kind, blocking, timed):
         t = self.running
         if t is None:
@@ -313,6 +331,9 @@ class Scheduler:
                     out.append((t.idx, False))
             elif kind in ('rel', 'zero', 'send'):
                 out.append((t.idx, True))
+            elif kind == 'clock':
+                out.append((t.idx, True))
+                out.append((t.idx, False))
             elif kind == 'recv':
                 if self.pipe:
                     out.append((t.idx, True))
@@ -368,4 +389,5 @@ class Scheduler:
 
     def pending_sems(self):
         return [(-1 if (t.done or t.dormant or t.pending is None)
-                 else (100 if t.pending[0] is None else t.pending[0].sid)) for t in self.threads]
+                 else ((101 if t.pending[1] == 'clock' else 100) if t.pending[0] is None else t.pending[0].sid))
+                for t in self.threads]
